@@ -4,8 +4,11 @@ import (
 	"context"
 	"fmt"
 	"path"
+	"regexp"
 	"sort"
 	"strings"
+
+	"google.golang.org/protobuf/reflect/protoreflect"
 
 	"github.com/pentops/j5/lib/verifshim/compile"
 	"verifharness/vh"
@@ -35,6 +38,36 @@ type loadObs struct {
 	Bundle map[string][]loadFile // package -> files (external packages: no files)
 	Pkgs   map[string]loadPkgObs
 	Err    string
+	// the link phase (CLink)
+	Prefixes []string            // sourceResolver.localPrefixes
+	Owners   [][2]string         // local path -> packageForFile (re-implemented: splitPackage)
+	Outs     map[string][]string // every file of every local package -> its Dependency list
+	Exts     map[string][]string // every non-local file reached through imports -> its imports
+	Linked   map[string][]linkedOut
+}
+
+type linkedOut struct {
+	Path  string
+	Count uint64 // files in the unfolding of the import tree: 1 + sum over imports
+}
+
+var reVersionSeg = regexp.MustCompile(`^v[0-9]+$`)
+
+// splitPackage re-implements j5convert.SplitPackageFromFilename (the harness cannot import internal/...): the directory
+// as a dotted name; "x.v1.service" -> "x.v1". "" when there is no version segment where the original expects one.
+func splitPackage(filename string) string {
+	pkg := pkgOfFile(filename)
+	parts := strings.Split(pkg, ".")
+	if len(parts) < 2 {
+		return ""
+	}
+	if reVersionSeg.MatchString(parts[len(parts)-1]) {
+		return pkg
+	}
+	if reVersionSeg.MatchString(parts[len(parts)-2]) {
+		return strings.Join(parts[:len(parts)-1], ".")
+	}
+	return ""
 }
 
 func pkgOfFile(filename string) string {
@@ -54,12 +87,16 @@ func observeLoad(b bundleT, seed uint64) (o loadObs) {
 		o.Err = err.Error()
 		return
 	}
+	returned := map[string][]protoreflect.FileDescriptor{}
 	for _, pkg := range shuffled(r, b.Packages) {
-		if _, err := set.CompilePackage(context.Background(), pkg); err != nil {
+		fs, err := set.CompilePackage(context.Background(), pkg)
+		if err != nil {
 			o.Err = err.Error()
 			return
 		}
+		returned[pkg] = fs
 	}
+	o.observeLink(b, returned)
 	o.Bundle = map[string][]loadFile{}
 	o.Pkgs = map[string]loadPkgObs{}
 	local := map[string]bool{}
@@ -126,6 +163,84 @@ func observeLoad(b bundleT, seed uint64) (o loadObs) {
 		o.Pkgs[name] = po
 	}
 	return
+}
+
+// observeLink reads the link phase off the linked descriptors CompilePackage returned.
+func (o *loadObs) observeLink(b bundleT, returned map[string][]protoreflect.FileDescriptor) {
+	for _, p := range b.Packages {
+		o.Prefixes = append(o.Prefixes, strings.ReplaceAll(p, ".", "/")+"/")
+	}
+	isLocal := func(f string) bool {
+		for _, p := range o.Prefixes {
+			if strings.HasPrefix(f, p) {
+				return true
+			}
+		}
+		return false
+	}
+	o.Outs = map[string][]string{}
+	o.Exts = map[string][]string{}
+	o.Linked = map[string][]linkedOut{}
+	owners := map[string]string{}
+	counts := map[string]uint64{}
+	var walk func(fd protoreflect.FileDescriptor) uint64
+	walk = func(fd protoreflect.FileDescriptor) uint64 {
+		if c, ok := counts[fd.Path()]; ok {
+			return c
+		}
+		counts[fd.Path()] = 0
+		var deps []string
+		c := uint64(1)
+		imps := fd.Imports()
+		for i := 0; i < imps.Len(); i++ {
+			imp := imps.Get(i)
+			deps = append(deps, imp.Path())
+			c += walk(imp.FileDescriptor)
+		}
+		counts[fd.Path()] = c
+		if isLocal(fd.Path()) {
+			o.Outs[fd.Path()] = deps
+			owners[fd.Path()] = splitPackage(fd.Path())
+		} else {
+			o.Exts[fd.Path()] = deps
+		}
+		return c
+	}
+	for pkg, fs := range returned {
+		for _, fd := range fs {
+			o.Linked[pkg] = append(o.Linked[pkg], linkedOut{fd.Path(), walk(fd)})
+		}
+	}
+	var ks []string
+	for k := range owners {
+		ks = append(ks, k)
+	}
+	sort.Strings(ks)
+	for _, k := range ks {
+		o.Owners = append(o.Owners, [2]string{k, owners[k]})
+	}
+}
+
+func coqTable(m map[string][]string) string {
+	var ks []string
+	for k := range m {
+		ks = append(ks, k)
+	}
+	sort.Strings(ks)
+	var q []string
+	for _, k := range ks {
+		q = append(q, fmt.Sprintf("(%q, %s)", k, coqStrList(m[k])))
+	}
+	return "[" + strings.Join(q, "; ") + "]"
+}
+
+func (o loadObs) linkTerm(pkg string) string {
+	var obs []string
+	for _, l := range o.Linked[pkg] {
+		obs = append(obs, fmt.Sprintf("(%q, %d)", l.Path, l.Count))
+	}
+	return fmt.Sprintf("CLink %s %q %s %s %s %s [%s]", o.bundleTerm(), pkg, coqStrList(o.Prefixes), coqPairs(o.Owners),
+		coqTable(o.Outs), coqTable(o.Exts), strings.Join(obs, "; "))
 }
 
 func coqPairs(ps [][2]string) string {
